@@ -222,6 +222,8 @@ def run(prop, tier, replay_file=None):
                         continue
                     if kind == "garbage" and cls != "change":
                         continue     # free-form output of read commands cannot be 'unexpected'
+                    if kind == "reject" and p.get("askyes") and k == 0:
+                        continue     # the answer to ssh's host-key question goes to ssh, not to the device: nothing rejects it
                     if kind == "stall" and tier == "quick" and k % 3 != (C.seed() % 3) and cls not in ("change", "save"):
                         continue     # every stall costs a timeout: quick samples the read positions
                     todo.append((p, k, kind))
